@@ -69,7 +69,10 @@ def everything_is_wrapped_by_one_bucket(ctx):
                     ctx.ob(m, c, ok, 'the body handed to the chunk reader must be the _wrap_fileobj() result on every path')
     ctx.need(n >= 3, f'only {n} body construction sites found')
     us = ctx.func('upload.UploadSubmissionTask._submit')
-    ok = any(isinstance(c.func, ast.Call) and any(isinstance(a, ast.Name) and a.id == 'bandwidth_limiter' for a in list(c.args) + [k.value for k in c.keywords]) for c in own_calls(us.node))
+    def _is_manager_cls(fx):
+        fx = q.resolve_local(us, fx)
+        return isinstance(fx, ast.Call) and (dotted(fx.func) or '').endswith('_get_upload_input_manager_cls')
+    ok = any(_is_manager_cls(c.func) and any(isinstance(a, ast.Name) and a.id == 'bandwidth_limiter' for a in list(c.args) + [k.value for k in c.keywords]) for c in own_calls(us.node))
     ctx.ob(us, 'the input manager receives bandwidth_limiter', ok, 'the limiter never reaches the upload bodies')
     # download side
     t = ctx.func('download.GetObjectTask._main')
@@ -223,7 +226,8 @@ def small_bodies_are_charged(ctx):
                           and norm(x.args[1]) == 'self._request_token' for x in cs)
     ctx.ob(c, 'consume(self._bytes_seen, self._request_token)', ok, 'the amount charged must be the bytes seen, with the stream\'s own token')
     rs = [n for n in own_nodes(c.node) if isinstance(n, ast.Assign) and dotted(n.targets[0]) == 'self._bytes_seen' and norm(n.value) == '0']
-    ctx.ob(c, 'self._bytes_seen = 0 after a granted consume', len(rs) == 1 and any(field == 'body' for _, field in q.enclosing_trys(rs[0])), 'charged bytes must not be charged again')
+    ctx.ob(c, 'self._bytes_seen = 0 after a granted consume', len(rs) == 1 and any(field in ('body', 'orelse') for _, field in q.enclosing_trys(rs[0]))
+           and not q.in_handler(rs[0]), 'charged bytes must not be charged again')
 
 
 @rule('C13.e', ['C13'], floor=4)
@@ -278,9 +282,14 @@ def scheduler_accounting_is_paired(ctx):
     x = ctx.expanded()
     rb = x.func('bandwidth.LeakyBucket.consume')
     cs = [c for c in own_calls(rb.node) if (dotted(c.func) or '').endswith('schedule_consumption')]
-    raises = [n for n in own_nodes(rb.node) if isinstance(n, ast.Raise) and isinstance(n.exc, ast.Call) and 'RequestExceededException' in norm(n.exc.func)]
+    raises = []
+    for n in own_nodes(rb.node):
+        if isinstance(n, ast.Raise) and n.exc is not None:
+            ex = q.resolve_local(rb, n.exc)
+            if isinstance(ex, ast.Call) and 'RequestExceededException' in norm(ex.func):
+                raises.append(ex)
     wait = q.resolve_local(rb, cs[0]._parent.targets[0]) if len(cs) == 1 and isinstance(cs[0]._parent, ast.Assign) else (cs[0] if len(cs) == 1 else None)
-    ok = len(cs) == 1 and len(raises) == 1 and q.resolve_local(rb, q.argn(raises[0].exc, 'retry_time', 1)) is cs[0]
+    ok = len(cs) == 1 and len(raises) == 1 and q.resolve_local(rb, q.argn(raises[0], 'retry_time', 1)) is cs[0]
     share = q.argn(cs[0], 'time_to_consume', 2) if len(cs) == 1 else None
     ok2 = share is not None and (q.ntext(rb, share) or '').replace(' ', '') in ('amt/float(self._max_rate)', 'amt/self._max_rate')
     ctx.ob(rb.qualname, 'retry_time of the exception = the wait returned by the scheduler; share = amt / max_rate', ok and ok2,
